@@ -273,6 +273,35 @@ func checkMapOrder(c *Ctx, p *core.Prog, matchFn *ssa.Function, explored []*ssa.
 						}
 					}
 				}
+				// the size of a map the loop fills, tested inside the loop: "the first N entries" are whichever the iteration yields
+				for b := range loop {
+					for _, in := range b.Instrs {
+						call, ok := in.(*ssa.Call)
+						if !ok {
+							continue
+						}
+						bi, isB := call.Call.Value.(*ssa.Builtin)
+						if !isB || bi.Name() != "len" || !written[core.Unspill(call.Call.Args[0])] {
+							continue
+						}
+						for _, r := range *call.Referrers() {
+							if bo, isBo := r.(*ssa.BinOp); isBo && bo.Referrers() != nil {
+								for _, r2 := range *bo.Referrers() {
+									if ifi, isIf := r2.(*ssa.If); isIf && loop[ifi.Block()] && bad == "" {
+										bad = core.ShortFn(fn) + ": the size of a map that the loop over " + core.TypeName(rl.over.Type()) + " itself fills is tested at " + p.Pos(bo.Pos()) + " (a cap on the number of entries taken)"
+									}
+									if ph, isPhi := r2.(*ssa.Phi); isPhi && ph.Referrers() != nil {
+										for _, r3 := range *ph.Referrers() {
+											if ifi, isIf := r3.(*ssa.If); isIf && loop[ifi.Block()] && bad == "" {
+												bad = core.ShortFn(fn) + ": the size of a map that the loop over " + core.TypeName(rl.over.Type()) + " itself fills is tested at " + p.Pos(bo.Pos()) + " (a cap on the number of entries taken)"
+											}
+										}
+									}
+								}
+							}
+						}
+					}
+				}
 				for b := range loop {
 					for _, in := range b.Instrs {
 						lk, ok := in.(*ssa.Lookup)
